@@ -258,7 +258,7 @@ def _worker(arg):
 
 def main(tier: str) -> int:
     run = common.Run(PROP, tier, level='fault_enumeration')
-    n = 150 if tier == 'quick' else 4000
+    n = 150 if tier == 'quick' else 15000
     run.require('outcome_success', 'outcome_library', 'complete_file_sets', 'fault_unknown-encapsulee',
                 'fault_port-type-unresolvable', 'fault_port-type-ambiguous',
                 'fault_uncovered-port', 'fault_mc-unknown-claim-event')
